@@ -32,12 +32,41 @@ def cases(tier, rng):
     for kind in ("tcp+tls", "wss"):
         line = "c04first %s 3" % kind
         cs.append({"line": line, "key": line, "model": False, "tags": {"cert": "none", "ins": 1, "must": 0, "script": "reconnect-" + kind}})
+    # every kind of endpoint that is configured for TLS from the first octet answers a TLS hello and nothing else (started from its
+    # configuration text and probed on the wire), whatever the socket family ...
+    k = 0
+    for scheme in ("tcp+tls", "unix+tls", "https", "wss", "http+tls", "ws+tls"):
+        k += 1
+        text = scheme + (":///tmp/verif-c04-%d.sock" % k if scheme.startswith("unix") else "://127.0.0.1:0")
+        line = "c18 server json #%s 1" % text.encode("latin-1").hex()
+        cs.append({"line": line, "key": line, "model": False, "tags": {"cert": "good", "ins": 0, "must": 0, "script": "tls-endpoint", "scheme": scheme}})
+    # ... and with security required every kind of upstream refuses a server that cannot upgrade, and upgrades with one that can
+    # (the cells of C05's matrix that are about C04: run here with the must-secure flag set)
+    for carrier, scert in (("plain-socket", "none"), ("plain-ws", "none"), ("plain-kcp", "none"), ("starttls-socket", "good"), ("starttls-ws", "good"), ("starttls-kcp", "good")):
+        line = "c05 %s %s 0 none 0 1" % (carrier, scert)
+        cs.append({"line": line, "key": line, "model": False, "tags": {"cert": scert, "ins": 0, "must": 1, "script": "must-secure-upstream", "carrier": carrier}})
     return cs
 
 
 def oracle(case, impl):
     t = case["tags"]
     p = impl.split()
+    if t["script"] == "tls-endpoint":
+        if "wire" not in p:
+            return [("crash", "a TLS endpoint could not be started or probed: %s -> %s" % (t["scheme"], impl[:100]))]
+        w = p[p.index("wire") + 1]
+        if w != "tls":
+            return [("tls-endpoint-speaks-plaintext;scheme=" + t["scheme"], "an endpoint configured as %s does not answer a TLS hello (on the wire: %s): a plaintext peer can complete a session" % (t["scheme"], w))]
+        return []
+    if t["script"] == "must-secure-upstream":
+        if not p or p[0] in ("panic", "died", "timeout", "harness-error", "startup-err"):
+            return [("crash", "scenario did not complete: %s -> %s" % (case["line"], impl[:100]))]
+        f = dict(zip(p[2::2], p[3::2]))
+        if p[:2] == ["connect", "ok"] and (t["cert"] == "none" or f.get("secure") != "1"):
+            return [("required-security-degraded;script=must-secure-upstream;carrier=" + t["carrier"], "security is required, the server %s, yet the upstream carried application data: %s" % ("cannot upgrade" if t["cert"] == "none" else "offers StartTLS", impl))]
+        if t["cert"] == "good" and p[:2] != ["connect", "ok"]:
+            return [("good-peer-refused;carrier=" + t["carrier"], "a server that offers StartTLS was refused by a client that requires security: " + impl)]
+        return []
     if not p or p[0] in ("panic", "died", "timeout", "harness-error") or "hang" in p:
         return [("crash", "scenario did not complete: %s -> %s" % (case["line"], impl[:100]))]
     if p[0] == "startup-err":
